@@ -147,7 +147,7 @@ func caseTimeout() time.Duration {
 	if v, err := strconv.Atoi(os.Getenv("VERIF_CASE_TIMEOUT")); err == nil && v > 0 {
 		return time.Duration(v) * time.Second
 	}
-	return 300 * time.Second
+	return 120 * time.Second
 }
 
 func (t *Writer) Case(id, family string, cfg ...string) {
